@@ -97,6 +97,27 @@ NearMisses(n) ==
       \cup { SubSeq(n, 1, k) \o <<32>> \o SubSeq(n, k + 1, Len(n)) : k \in 1..(Len(n) - 1) }
       \cup { Tab.headers[i] : i \in 1..Len(Tab.headers) } ) \ {n}
 
+(* other ways in which people write the isotope n = <mass number><symbol>: symbol first ("He3"),    *)
+(* with a hyphen or underscore ("He-3", "3-He", "He_3"), with a caret ("^3He").  None of them is a    *)
+(* first-column entry, so each must be rejected (unless it happens to be tabulated itself).            *)
+DigitsOf(n) == SubSeq(n, 1, LeadDigits(n, 1))
+OtherNotations(n) ==
+    IF LeadDigits(n, 1) = 0 THEN {}
+    ELSE { ElementOf(n) \o DigitsOf(n), ElementOf(n) \o <<45>> \o DigitsOf(n), DigitsOf(n) \o <<45>> \o ElementOf(n),
+           ElementOf(n) \o <<95>> \o DigitsOf(n), <<94>> \o n } \ {n}
+(* the same element with a neighbouring mass number (last digit one up / one down): tabulated or not,   *)
+(* it is another nuclide and must never be answered with the data of n                                *)
+Neighbours(n) ==
+    LET d == LeadDigits(n, 1)
+    IN IF d = 0 THEN {}
+       ELSE (IF n[d] < 57 THEN { [n EXCEPT ![d] = n[d] + 1] } ELSE {}) \cup
+            (IF n[d] > 48 THEN { [n EXCEPT ![d] = n[d] - 1] } ELSE {})
+
+(* ways of handing a wavelength / a number density to Material.attenuation_coefficient: the law does   *)
+(* not depend on them                                                                                *)
+NumTypes == {"float64", "float32", "int64", "int32"}
+WavelengthLayouts == {"0d", "1d", "1d_unsorted", "2d_transposed"}
+
 -----------------------------------------------------------------------------
 (* attenuation coefficient on rationals <<p, q>>, q > 0:                                         *)
 (*   mu = n (sigma_s + sigma_a * lambda / 1.7982 A),   1.7982 = 8991/5000                         *)
